@@ -4,7 +4,7 @@
 
 use std::collections::{VecDeque, HashSet, HashMap};
 use std::sync::{Arc, RwLock};
-use std::time::{Duration, Instant};
+use std::time::{Duration, Instant, SystemTime, UNIX_EPOCH};
 use std::thread;
 use rand::seq::SliceRandom;
 
@@ -203,7 +203,19 @@ impl StorageEngine {
     }
     
     /// Set a string value with expiration
+    /// A deadline is kept, reported (PTTL) and written to the dump as signed 64-bit unix milliseconds, as in
+    /// Redis: a time to live whose deadline does not fit is refused ("invalid expire time") instead of wrapping in
+    /// those conversions or overflowing where the snapshot adds it to the wall clock
+    fn check_ttl(expires_in: Duration) -> Result<()> {
+        let now_ms = SystemTime::now().duration_since(UNIX_EPOCH).map(|d| d.as_millis()).unwrap_or(0);
+        match expires_in.as_millis().checked_add(now_ms) {
+            Some(deadline) if deadline <= i64::MAX as u128 => Ok(()),
+            _ => Err(FerrousError::Command(CommandError::Generic("invalid expire time".to_string()))),
+        }
+    }
+    
     pub fn set_string_ex(&self, db: DatabaseIndex, key: Key, value: Vec<u8>, expires_in: Duration) -> Result<()> {
+        Self::check_ttl(expires_in)?;
         self.set_value(db, key, Value::string(value), Some(expires_in))
     }
     
@@ -237,6 +249,7 @@ impl StorageEngine {
     
     /// Set a string value with expiration only if the key doesn't exist (atomic operation)
     pub fn set_string_nx_ex(&self, db: DatabaseIndex, key: Key, value: Vec<u8>, expires_in: Duration) -> Result<bool> {
+        Self::check_ttl(expires_in)?;
         let shard = self.get_shard(db, &key)?;
         let mut shard_guard = shard.write().unwrap();
         
@@ -368,6 +381,7 @@ impl StorageEngine {
     
     /// Set expiration on a key
     pub fn expire(&self, db: DatabaseIndex, key: &[u8], expires_in: Duration) -> Result<bool> {
+        Self::check_ttl(expires_in)?;
         let shard = self.get_shard(db, key)?;
         let mut shard_guard = shard.write().unwrap();
         
